@@ -219,10 +219,30 @@ def csv_obs(case, obs):
         except Exception as ex:  # noqa: BLE001
             r["parse_exc"] = f"{type(ex).__name__}: {str(ex)[:160]}"
         # ---- an existing CSV is only replaced on request
-        before = (npth.read_bytes(), epth.read_bytes())
+        old_bytes = (npth.read_bytes(), epth.read_bytes())
+        before = old_bytes
         spath2 = root / "g2.zarr" / "tracks.geff"
         other = {**case, "node_props": [], "edge_props": []}
         build_store(other, spath2, case.get("zarr_format", 2))
+        fresh = root / "fresh.csv"
+        scen = []
+
+        def state(path, old, new):
+            if not path.exists():
+                return "absent"
+            b = path.read_bytes()
+            if b == new == old:
+                return "same"          # old and new export coincide: cannot tell, matches both
+            return "new" if b == new else ("old" if b == old else "other")
+        raised = False
+        try:
+            geff_to_csv(spath2, fresh)
+        except Exception:  # noqa: BLE001
+            raised = True
+        fn, fe = Path(f"{fresh.with_suffix('')}-nodes.csv"), Path(f"{fresh.with_suffix('')}-edges.csv")
+        new_bytes = (fn.read_bytes() if fn.exists() else b"", fe.read_bytes() if fe.exists() else b"")
+        scen.append({"exists": [False, False], "overwrite": False, "raised": raised,
+                     "nodes": "new" if fn.exists() else "absent", "edges": "new" if fe.exists() else "absent"})
         ow: dict = {}
         for name, call in (("api", lambda: geff_to_csv(spath2, outarg)),
                            ("api-false", lambda: geff_to_csv(spath2, outarg, overwrite=False)),
@@ -241,6 +261,8 @@ def csv_obs(case, obs):
             except Exception as ex:  # noqa: BLE001
                 ow[name] = type(ex).__name__
             ow[name + "-unchanged"] = (npth.read_bytes(), epth.read_bytes()) == before
+            scen.append({"exists": [True, True], "overwrite": False, "raised": ow[name] != "ok",
+                         "nodes": state(npth, old_bytes[0], new_bytes[0]), "edges": state(epth, old_bytes[1], new_bytes[1])})
         # only the edge file exists: the node file may be created, the existing edge file must stay
         npth.unlink()
         try:
@@ -249,15 +271,31 @@ def csv_obs(case, obs):
         except Exception as ex:  # noqa: BLE001
             ow["edges-only"] = type(ex).__name__
         ow["edges-only-unchanged"] = epth.read_bytes() == before[1]
+        scen.append({"exists": [False, True], "overwrite": False, "raised": ow["edges-only"] != "ok",
+                     "nodes": state(npth, old_bytes[0], new_bytes[0]), "edges": state(epth, old_bytes[1], new_bytes[1])})
+        # only the node file exists
+        if npth.exists():
+            npth.write_bytes(old_bytes[0])
+        epth.unlink()
+        try:
+            geff_to_csv(spath2, outarg)
+            ow["nodes-only"] = "ok"
+        except Exception as ex:  # noqa: BLE001
+            ow["nodes-only"] = type(ex).__name__
+        scen.append({"exists": [True, False], "overwrite": False, "raised": ow["nodes-only"] != "ok",
+                     "nodes": state(npth, old_bytes[0], new_bytes[0]), "edges": state(epth, old_bytes[1], new_bytes[1])})
+        epth.write_bytes(old_bytes[1])
         # on request: replaced by exactly the export of the new content
         try:
             geff_to_csv(spath2, outarg, overwrite=True)
-            fresh = root / "fresh.csv"
-            geff_to_csv(spath2, fresh)
-            ow["replaced"] = (npth.read_bytes() == Path(f"{fresh.with_suffix('')}-nodes.csv").read_bytes()
-                              and epth.read_bytes() == Path(f"{fresh.with_suffix('')}-edges.csv").read_bytes())
+            ow["replaced"] = (npth.read_bytes() == new_bytes[0] and epth.read_bytes() == new_bytes[1])
+            scen.append({"exists": [True, True], "overwrite": True, "raised": False,
+                         "nodes": state(npth, old_bytes[0], new_bytes[0]), "edges": state(epth, old_bytes[1], new_bytes[1])})
         except Exception as ex:  # noqa: BLE001
             ow["replaced"] = type(ex).__name__
+            scen.append({"exists": [True, True], "overwrite": True, "raised": True,
+                         "nodes": state(npth, old_bytes[0], new_bytes[0]), "edges": state(epth, old_bytes[1], new_bytes[1])})
+        r["scenarios"] = scen
         r["overwrite"] = ow
     return r
 
@@ -631,7 +669,22 @@ def run(ck: common.Check):
                 if d is not None:
                     ck.corr_broken("C17:geffToDataframes", small,
                                    {k: o.get(k) for k in ("exc", "msg", "nodes", "edges", "warn")}, {"diff": d, "model": mo})
-    ck.extra.update({"csv_exports": ncsv, "csv_value_comparisons": ncsv_cmp})
+    # file-level model of geff_to_csv (which files are written / kept) on the observed scenarios
+    scen_reqs, scen_obs = [], []
+    for c, o in zip(cases, obs_all):
+        for sc in (o.get("csv") or {}).get("scenarios", []):
+            scen_reqs.append({"op": "csv", "exists": sc["exists"], "overwrite": sc["overwrite"]})
+            scen_obs.append((c, sc))
+    scen_model = drv.ask(scen_reqs) if scen_reqs else []
+    if scen_model is None:
+        ck.broken.append({"what": "driver Drivers/C17.lean (csv)", "detail": drv.broken})
+    else:
+        for (c, sc), mo in zip(scen_obs, scen_model):
+            got = {k: sc[k] for k in ("raised", "nodes", "edges")}
+            if "err" in mo or got["raised"] != mo["raised"] or any(
+                    got[k] != mo[k] and not (got[k] == "same" and mo[k] in ("old", "new")) for k in ("nodes", "edges")):
+                ck.corr_broken("C17:geffToCsv", {"scenario": sc, "case": c}, got, mo)
+    ck.extra.update({"csv_exports": ncsv, "csv_value_comparisons": ncsv_cmp, "csv_file_scenarios": len(scen_reqs)})
     ck.assumptions += [
         "pandas is exercised, not modelled: a masked integer column is float64 (values generated below 2^53 there), a "
         "masked bool column is object; a stored float NaN and a missing entry are both NaN cells",
